@@ -18,9 +18,9 @@ VARIANTS = {
     # the judged artefact: flags of the CMake RelWithDebInfo build the tests use
     "prod": {"cc": "gcc", "cflags": ["-O2", "-O3"] + COMMON, "ldflags": []},
     "asan": {"cc": "gcc",
-             "cflags": ["-O1", "-g", "-fsanitize=address,undefined", "-fno-sanitize=alignment",
+             "cflags": ["-O1", "-g", "-fsanitize=address", "-fsanitize-recover=address",
                         "-fno-omit-frame-pointer"] + COMMON,
-             "ldflags": ["-fsanitize=address,undefined"]},
+             "ldflags": ["-fsanitize=address"]},
     "tsan": {"cc": "gcc", "cflags": ["-O1", "-g", "-fsanitize=thread"] + COMMON,
              "ldflags": ["-fsanitize=thread"]},
     "noinl": {"cc": "gcc",
@@ -72,7 +72,7 @@ def link_driver(name, variant, srcs, tus=("mir", "mir-gen"), cflags=(), ldflags=
     """compile the check driver sources (paths relative to VERIF) with the variant's sanitizer flags and
     link with the library objects of that variant; returns path to the executable"""
     v = VARIANTS[variant]
-    san = [f for f in v["cflags"] if f.startswith("-fsanitize") or f.startswith("-fno-sanitize")]
+    san = [f for f in v["cflags"] if f.startswith("-fsanitize") or f.startswith("-fno-sanitize") or f == "-fno-omit-frame-pointer"]
     dflags = [driver_opt, "-g", "-std=gnu11", "-w", "-fno-strict-aliasing", "-fwrapv", "-DNDEBUG", "-D" + GUARD] + san + list(cflags)
     incs = ["-I" + REPO, "-I" + os.path.join(VERIF, "core"), "-I" + os.path.join(VERIF, "checks")]
     objs = list(lib(variant, tus)) if tus else []
